@@ -127,8 +127,12 @@ func (w *walker) disjunction(d ast.DisjunctionType, c wctx) {
 			pkgs = append(pkgs, b.Ref.ReferredPkg)
 		}
 	}
-	if len(pkgs) == 0 {
-		pkgs = []string{c.schemaPkg}
+	// lenience: the statement does not say which package a bare mapping value
+	// lives in when the disjunction sits in another package than its branches
+	// (only duplicate_object into another package produces that); cog's own
+	// passes read it in the enclosing schema's package, so either is accepted.
+	if !seen[c.schemaPkg] && c.schemaPkg != "" {
+		pkgs = append(pkgs, c.schemaPkg)
 	}
 	keys := make([]string, 0, len(d.DiscriminatorMapping))
 	for k := range d.DiscriminatorMapping {
